@@ -396,7 +396,7 @@ def find_roles(facts, tables, disp):
             if not c or not c["local"]:
                 continue
             it = facts.items.get(c["key"])
-            if it and it.get("inputs") and it["inputs"][0].endswith(desc_adt) and it["inputs"][0].startswith("&"):
+            if it and it.get("inputs") and it["inputs"][0].endswith(desc_adt) and (it["inputs"][0].startswith("&") or it["inputs"][0] == desc_adt):
                 here = bi if k == disp.body.key else None
                 if it["output"] == "bool" and len(it["inputs"]) == 1:
                     if "unary" not in roles or (here is not None and roles["unary"][1] is None):
@@ -779,17 +779,20 @@ def k34_paths(ctx, facts, disp, roles, cfg):
         for q in cw.paths:
             truth = None
             args_ok = True
+            passed_ = []
             for key, val0 in q.order:
                 rw = cw.raw.get((key, q.atoms.get(key, val0))) or cw.raw.get((key, val0))
                 if rw and rw[0][0] == "call" and rw[0][1] and rw[0][1].get("key") == vkey:
                     truth = rw[1]
                     args_ok = [strip_refs(a) for a in rw[0][2]] == [("arg", 1), ("arg", 2)]
+                    passed_ = [strip_refs(a) for a in rw[0][2]]
             r = strip_refs(q.result)
             var = r[1].get("variant") if r[0] == "agg" else None
             if truth is None:
                 ctx.unread("K3.check-Ok", "predicate → outcome (%s)" % cfg, "a path of the length check does not ask the predicate", where=cb.where(), fn=cb.key)
                 continue
-            ctx.check(args_ok, "K3.check-args", "length check forwards (descriptor, length) (%s)" % cfg, "the length check does not pass its own descriptor and length to the predicate", where=cb.where(), fn=cb.key)
+            narrowed_ = [x[3] for x in passed_[1:2] if x[0] == "cast" and len(x) > 3 and strip_refs(x[2]) == ("arg", 2) and x[3] not in WIDE]
+            ctx.check(args_ok, "K3.check-args", "length check forwards (descriptor, length) (%s)" % cfg, "the length check does not pass its own descriptor and length to the predicate" + ((": the operand count is converted to %s first, so counts are checked modulo 2^bits — surplus operands are accepted and valid long lists rejected" % narrowed_[0]) if narrowed_ else (" (it passes %s)" % [show_expr(x)[:60] for x in passed_])), where=cb.where(), fn=cb.key)
             want = "Ok" if truth else "Err"
             ctx.check(var == want, "K3.check-%s" % want, "predicate %s → %s (%s)" % (truth, want, cfg), "when the length predicate is %s the length check returns %s instead of %s" % (truth, show_expr(r)[:80], want), where=cb.where(), nontrivial=True, fn=cb.key)
     ctx.check(not opnd_bad, "K4.operand", "operand is the object's value under the dispatched key (%s)" % cfg, "the operand is not obtained as object[key] for the dispatched key: %s" % opnd_bad[:1], where=where, fn=b.key)
@@ -874,8 +877,10 @@ def k34_structural(ctx, facts, disp, roles, cfg):
     vkey, vbi = roles["valid"]
     vt = cb.blocks[vbi]["term"]
     args_ok = [strip_refs(cb.trace(a)) for a in vt["args"]] == [("arg", 1), ("arg", 2)]
+    passed_ = [strip_refs(cb.trace(a)) for a in vt["args"]]
+    narrowed_ = [x[3] for x in passed_[1:2] if x[0] == "cast" and len(x) > 3 and strip_refs(x[2]) == ("arg", 2) and x[3] not in WIDE]
     ctx.check(args_ok, "K3.check-args", "length check forwards (descriptor, length) (%s)" % cfg,
-              "the length check does not pass its own descriptor and length to the predicate", where=cb.where(vbi), fn=cb.key)
+              "the length check does not pass its own descriptor and length to the predicate" + ((": the operand count is converted to %s first, so counts are checked modulo 2^bits — surplus operands are accepted and valid long lists rejected" % narrowed_[0]) if narrowed_ else (" (it passes %s)" % [show_expr(x)[:60] for x in passed_])), where=cb.where(vbi), fn=cb.key)
     sw = [bi for bi in cb.reachable() if cb.blocks[bi]["term"]["k"] == "SwitchInt" and strip_refs(cb.trace(cb.blocks[bi]["term"]["discr"]))[0] == "call" and strip_refs(cb.trace(cb.blocks[bi]["term"]["discr"]))[1].get("key") == vkey]
     ctx.need(len(sw) == 1, "length check does not branch exactly once on the predicate")
     for want, variant in ((True, "Ok"), (False, "Err")):
